@@ -6,6 +6,7 @@ import (
 	"bytes"
 	"encoding/json"
 	"reflect"
+	"strings"
 
 	"github.com/Azbesciak/RealDecisionMaker/lib/model"
 )
@@ -175,9 +176,15 @@ func init() {
 				reflect.DeepEqual(dm.Biases, before.Biases) && dm.PreferenceFunction == before.PreferenceFunction && dm.BiasApplyRandomSeed == before.BiasApplyRandomSeed,
 				"MakeDecision modified the request value handed to it")
 			if st0 == 500 {
-				// the decision succeeded but contains a non-finite number (overflow of an exponential gain on a
-				// tiny declared range, …): encoding/json cannot represent it; outside every theorem and oracle
-				o.count("non-finite-output")
+				// the decision succeeded but contains a non-finite number, which encoding/json cannot represent.
+				// Legitimate only as overflow of an exponential gain/loss function on a tiny range; anywhere else
+				// a NaN/Inf from finite inputs is reported
+				if strings.Contains(string(body), "expFromZero") {
+					o.count("non-finite-output-from-exp")
+				} else {
+					m.Stage = "finite-output"
+					o.Oracle(m, false, "the decision contains a non-finite number although the request has only finite numbers and no exponential function")
+				}
 				continue
 			}
 			if (tr.Err == "") != (st0 == 200) {
